@@ -46,16 +46,16 @@ def main():
     exe_t = build_harness('tsan', 'c04_driver', ['c04_driver.cpp', 'vbus.cpp'], wraps=WRAPS_BUS)
     exe_b = build_harness('asan', 'c04b_driver', ['c04b_driver.cpp', 'vbus.cpp'], wraps=WRAPS_BUS, need_ebusd=True)
     exe_bt = build_harness('tsan', 'c04b_driver', ['c04b_driver.cpp', 'vbus.cpp'], wraps=WRAPS_BUS, need_ebusd=True)
-    nD, maxf = (12, 100000) if c.thorough else (1, 25)
+    nD, maxf = (12, 100000) if c.thorough else (6, 40)
     cmds = [[exe, 'mode=D', 'seed=%d' % (c.seed * 100 + i), 'n=%d' % nD, 'maxfaults=%d' % maxf] for i in range(16)]
-    cmds += [[exe, 'mode=S', 'seed=%d' % (c.seed * 100 + 50 + i), 'n=%d' % (120 if c.thorough else 3)] for i in range(8)]
-    cmds += [[exe_b, 'seed=%d' % (c.seed * 100 + 70 + i), 'n=%d' % (400 if c.thorough else 12)] for i in range(8)]
+    cmds += [[exe, 'mode=S', 'seed=%d' % (c.seed * 100 + 50 + i), 'n=%d' % (120 if c.thorough else 8)] for i in range(8)]
+    cmds += [[exe_b, 'seed=%d' % (c.seed * 100 + 70 + i), 'n=%d' % (400 if c.thorough else 40)] for i in range(8)]
     res = run_shards(cmds, timeout=7200 if c.thorough else 900)
     c.add_result(res)
     tot = merge_stats(res.stats)
     # TSan runs: reports are classified, not fatal
-    tcmds = [[exe_t, 'mode=S', 'seed=%d' % (c.seed * 100 + 80 + i), 'n=%d' % (40 if c.thorough else 2)] for i in range(8)]
-    tcmds += [[exe_bt, 'seed=%d' % (c.seed * 100 + 90 + i), 'n=%d' % (100 if c.thorough else 4)] for i in range(4)]
+    tcmds = [[exe_t, 'mode=S', 'seed=%d' % (c.seed * 100 + 80 + i), 'n=%d' % (40 if c.thorough else 4)] for i in range(8)]
+    tcmds += [[exe_bt, 'seed=%d' % (c.seed * 100 + 90 + i), 'n=%d' % (100 if c.thorough else 8)] for i in range(4)]
     e = dict(os.environ)
     e['TSAN_OPTIONS'] = 'halt_on_error=0:exitcode=0:report_signal_unsafe=0:history_size=4'
     import subprocess, concurrent.futures
